@@ -218,8 +218,11 @@ Record tables := {
   arith_ops : list string; cmp_ops : list string; redscan_ops : list string;
   t_bin : list (string * string); t_cmp : list (string * string);
   t_red : list (string * string); t_scan : list (string * string);
+  t_call : list (string * string);      (* binary verbs emitted as a call of a helper: {'%': '_div', '^': '_pow'} *)
+  helpers_bound : bool; (* the exec namespace binds _div to compiled_divide and _pow to eval_dyad_power *)
   adm_obj : bool;       (* does _ast_to_ir admit object-dtype arrays? *)
-  f_bin : list tpart; f_cmp : list tpart; f_neg : list tpart; f_red : list tpart; f_scan : list tpart
+  f_bin : list tpart; f_cmp : list tpart; f_neg : list tpart; f_red : list tpart; f_scan : list tpart;
+  f_call : list tpart
 }.
 
 Definition mem (s : string) (l : list string) : bool := existsb (String.eqb s) l.
@@ -310,9 +313,13 @@ Fixpoint ir_to_source (T : tables) (i : ir) : option string :=
   | IBin op l r =>
       match ir_to_source T l, ir_to_source T r with
       | Some ls, Some rs =>
-          match assoc op (t_bin T) with
-          | Some o => Some (fill (f_bin T) [("l", ls); ("py_op", o); ("r", rs)])
-          | None => None
+          match assoc op (t_call T) with
+          | Some c => Some (fill (f_call T) [("call", c); ("l", ls); ("r", rs)])
+          | None =>
+              match assoc op (t_bin T) with
+              | Some o => Some (fill (f_bin T) [("l", ls); ("py_op", o); ("r", rs)])
+              | None => None
+              end
           end
       | _, _ => None
       end
@@ -413,6 +420,39 @@ Definition py_binop (o : string) (a b : val) : res val :=
     | _ => Unm
     end else Unm.
 
+(* _e_dyad_power on one pair: float power, then integers when the result is whole *)
+Definition kg_power (a b : val) : res val :=
+  match b with
+  | VS _ e =>
+      match nat_of_num e with
+      | Some n =>
+          match a with
+          | VS _ x => let r := NR (to_f (n_pow_nat (NR (to_f x)) n)) in
+                      Ok (if is_integral r then VS false (trunc_to_int r)    (* to_int_array: int(r), a Python int *)
+                          else VS true r)
+          | V1 l => let r := map (fun x => n_pow_nat x n) l in
+                    Ok (V1 (if forallb is_integral r then map trunc_to_int r else r))
+          | _ => Unm
+          end
+      | None => Unm
+      end
+  | _ => Unm
+  end.
+
+(* backends/base.py compiled_divide: a scalar divisor equal to 0 raises, else a / b *)
+Definition py_div_guarded (a b : val) : res val :=
+  match b with
+  | VS _ y => if is_zero y then Err else
+              match a with VS false x => if pyscalar b then Ok (VS false (n_div x y)) else np_lift2 n_div a b
+                         | _ => np_lift2 n_div a b end
+  | _ => np_lift2 n_div a b
+  end.
+
+(* the helper a binary verb is emitted as a call of: _div = compiled_divide, _pow = eval_dyad_power *)
+Definition py_helper (c : string) (a b : val) : res val :=
+  if String.eqb c "_div" then py_div_guarded a b else
+  if String.eqb c "_pow" then kg_power a b else Unm.
+
 (* `((l <cmp> r)*1)` *)
 Definition py_cmp (o : string) (a b : val) : res val :=
   if String.eqb o "==" then py_arith n_eq a b else
@@ -441,7 +481,10 @@ Fixpoint eval_ir (T : tables) (args : string -> option val) (i : ir) : res val :
   | IVar n => match args n with Some v => Ok v | None => Err (* NameError *) end
   | IBin op l r =>
       bind (eval_ir T args l) (fun a => bind (eval_ir T args r) (fun b =>
-        match assoc op (t_bin T) with Some o => py_binop o a b | None => Unm end))
+        match assoc op (t_call T) with
+        | Some c => if helpers_bound T then py_helper c a b else Unm
+        | None => match assoc op (t_bin T) with Some o => py_binop o a b | None => Unm end
+        end))
   | ICmp op l r =>
       bind (eval_ir T args l) (fun a => bind (eval_ir T args r) (fun b =>
         match assoc op (t_cmp T) with Some o => py_cmp o a b | None => Unm end))
@@ -500,24 +543,6 @@ Definition kg_arith (f : num -> num -> num) (a b : val) : res val :=
   else Err.                                                (* UFuncTypeError / TypeError *)
 
 Definition isscalar (v : val) : bool := match v with VS _ _ => true | _ => false end.
-
-(* _e_dyad_power on one pair: float power, then integers when the result is whole *)
-Definition kg_power (a b : val) : res val :=
-  match b with
-  | VS _ e =>
-      match nat_of_num e with
-      | Some n =>
-          match a with
-          | VS _ x => let r := NR (to_f (n_pow_nat (NR (to_f x)) n)) in
-                      Ok (VS true (if is_integral r then trunc_to_int r else r))
-          | V1 l => let r := map (fun x => n_pow_nat x n) l in
-                    Ok (V1 (if forallb is_integral r then map trunc_to_int r else r))
-          | _ => Unm
-          end
-      | None => Unm
-      end
-  | _ => Unm
-  end.
 
 Definition kg_dyad (op : string) (a b : val) : res val :=
   if String.eqb op "+" then kg_arith n_add a b else
@@ -614,29 +639,12 @@ Fixpoint run_history (T : tables) (guard catch_all : bool) (memo : option (optio
 Definition numeric (v : val) : bool :=
   match v with VS _ _ | V1 _ => true | V2 r => rect r | _ => false end.
 
-(* x is evaluated by the emitted code with Python scalars only *)
-Fixpoint pypure (rho : env) (e : expr) : bool :=
-  match e with
-  | ELitI _ | ELitR _ _ => true
-  | ESym s => match rho s with Some v => pyscalar v | None => false end
-  | EDyad _ a b => pypure rho a && pypure rho b
-  | EMonad _ a => pypure rho a
-  | _ => false
-  end.
-
-Definition is_undef (r : res val) : bool := match r with Ok VUndef => true | _ => false end.
-
-(* D5: variables bound to numeric scalars / rank-1 / rank-2 arrays; no ^ (finding K4); a division
-   that the interpreter answers with :undefined has Python-scalar operands (else finding K6) *)
+(* D5: variables bound to numeric scalars / rank-1 / rank-2 arrays *)
 Fixpoint d5 (rho : env) (e : expr) : bool :=
   match e with
   | ELitI _ | ELitR _ _ => true
   | ESym s => match rho s with Some v => numeric v | None => false end
-  | EDyad op a b =>
-      d5 rho a && d5 rho b && negb (String.eqb op "^") &&
-      (if String.eqb op "%" then
-         (if is_undef (interp rho e) then pypure rho a && pypure rho b else true)
-       else true)
+  | EDyad _ a b => d5 rho a && d5 rho b
   | EMonad _ a => d5 rho a
   | EAdv _ _ a => d5 rho a
   | EOther => false
